@@ -122,6 +122,25 @@ def rule_doc(P, mfm=False, ofm=False, opt=None, config_extra=None, macros=None, 
     return doc
 
 
+def share_equal(doc):
+    """The same document with equal composite subtrees made ONE object: yaml.safe_dump then writes the subtree
+    once with an anchor (&id001) and refers to it by alias (*id001) -- a spelling of the same rule."""
+    pool = {}
+
+    def walk(x):
+        if isinstance(x, dict):
+            y = {k: walk(v) for k, v in x.items()}
+        elif isinstance(x, list):
+            y = [walk(v) for v in x]
+        else:
+            return x
+        if not y:
+            return y
+        key = yaml.safe_dump(y, sort_keys=False)
+        return pool.setdefault(key, y)
+    return walk(doc)
+
+
 def dump_yaml(doc):
     text = yaml.safe_dump(doc, sort_keys=False, default_flow_style=False, width=1000)
     back = yaml.safe_load(text)
